@@ -437,6 +437,51 @@ def peephole_tie(ctx):
     return len(exprs) + npat
 
 
+def semantics_tie(ctx):
+    """Syntax.v's meaning of the interpreted node kinds (incl. the pseudo-ops le ge sle sge ne ceil32 as compile_ir lowers
+    them, argument order, shifts) vs the real compile_ir (no optimiser) + pyrevm, on a boundary grid of run-time operands."""
+    from vyper.codegen.ir_node import IRnode
+    from vyper.compiler.settings import OptimizationLevel
+    from vyper.evm.assembler import assembly_to_evm
+    from vyper.ir import compile_ir
+    from vlib.evm import Chain
+    rnd = ctx.rng("semtie")
+    g = [0, 1, 2, 31, 32, 33, 255, 256, HALF - 1, HALF, HALF + 1, W - 33, W - 32, W - 2, W - 1, rnd.randrange(W), rnd.randrange(W)]
+    ops2 = BOPS_ARITH + ["shl", "shr", "sar"]
+    exprs = [f"map (fun p => bop_sem B_{o} (fst p) (snd p)) (list_prod G G)" for o in ops2]
+    exprs += ["map (uop_sem U_iszero) G", "map (uop_sem U_not) G", "map ceil32_sem G"]
+    imports = ("From Verif Require Import Base.Word256 C15.Syntax.\n" + f"Definition G := {coqrun.zlist(g)}.\n")
+    outs = coqrun.eval_zlists(imports, exprs, "c15sem", shard=9)
+    chain = Chain("cancun")
+
+    def run_ir(ir_list, inputs):
+        asm = compile_ir.compile_to_assembly(IRnode.from_list(ir_list), OptimizationLevel.NONE)
+        addr = chain.set_code(None, assembly_to_evm(asm)[0])
+        res = []
+        for inp in inputs:
+            r = chain.call(addr, b"".join(v.to_bytes(32, "big") for v in inp))
+            res.append(int.from_bytes(r.out, "big") if r.ok and len(r.out) == 32 else None)
+        return res
+    n, bad = 0, None
+    pairs = [(a, b) for a in g for b in g]
+    for o, exp in zip(ops2, outs):
+        got = run_ir(["seq", ["mstore", 0, [o, ["calldataload", 0], ["calldataload", 32]]], ["return", 0, 32]], pairs)
+        for (a, b), e, r in zip(pairs, exp, got):
+            n += 1
+            if e != r and bad is None:
+                bad = {"ir": f"({o} {a} {b})", "coq_semantics": str(e), "compile_ir+evm": str(r)}
+    for o, exp in zip(["iszero", "not", "ceil32"], outs[len(ops2):]):
+        got = run_ir(["seq", ["mstore", 0, [o, ["calldataload", 0]]], ["return", 0, 32]], [(a,) for a in g])
+        for a, e, r in zip(g, exp, got):
+            n += 1
+            if e != r and bad is None:
+                bad = {"ir": f"({o} {a})", "coq_semantics": str(e), "compile_ir+evm": str(r)}
+    ctx.corr["semantics_tie_cases"] = n
+    if bad is not None:
+        ctx.violation("correspondence-broken", "C15/Syntax.v semantics != real compile_ir lowering executed on the EVM", bad)
+    return n
+
+
 def glue_corpus(ctx):
     """legacy pipeline, optimize none vs gas vs codesize, same seeded ABI-derived call plan (boundary-biased arguments):
     status, returndata, logs, final storage must agree.  Catches optimiser mutants outside the modelled fragment."""
@@ -484,6 +529,29 @@ def glue_corpus(ctx):
     return found, calls
 
 
+# files without dependence on generated code (also listed in coq/STATIC), in dependency order
+STATIC_FILES = ["C15/Syntax.v", "C15/WordFacts.v", "C15/Bytes.v", "C15/Peephole.v", "C15/PeepholeSound.v", "C15/JumpOpt.v",
+                "C15/JumpSem.v", "C15/JumpSound.v", "C15/JumpSound2.v", "C15/JumpSound3.v", "C15/PropsPeephole.v"]
+# regenerated model first: any change in /repo's translated code re-checks every proof after it
+GEN_FILES = ["C15/GenUtils.v", "C15/Optimizer.v", "C15/OptTree.v", "C15/FoldSound.v", "C15/PropsFold.v", "C15/OptSound.v",
+             "C15/OptTreeSound.v", "C15/MergeSound.v", "C15/MemInst.v", "C15/PropsOpt.v"]
+
+
+def _build(ctx):
+    """content-keyed build reuse (tools/README-dev.md "Build reuse"): a .vo is reused only if it was produced from
+    byte-identical inputs (own source, every earlier file of the list, deps, Base, Coq version)"""
+    bs = ctx.coq_build_cached(STATIC_FILES, timeout=1200)
+    if not bs["ok"]:
+        return bs
+    return ctx.coq_build_cached(GEN_FILES, deps=["C15/Syntax.v", "C15/WordFacts.v", "C15/Bytes.v"], timeout=1200)
+
+
+def prebuild(ctx):
+    """called by setup_cmd: generate and compile once so that the checks reuse the proofs"""
+    (COQ / "C15" / "GenUtils.v").write_text(gen_utils())
+    _build(ctx)
+
+
 def run(ctx):
     REPORTED.clear()
     differ = Differ("cancun")
@@ -496,16 +564,7 @@ def run(ctx):
         gen_err = str(e)
     T = {}
     t0 = time.time()
-    b = {"ok": False}
-    files = ["C15/GenUtils.v", "C15/Optimizer.v", "C15/OptTree.v", "C15/FoldSound.v", "C15/PropsFold.v", "C15/OptSound.v",
-             "C15/OptTreeSound.v", "C15/MergeSound.v", "C15/MemInst.v", "C15/PropsOpt.v", "C15/Peephole.v", "C15/PeepholeSound.v", "C15/JumpOpt.v", "C15/JumpSem.v",
-             "C15/JumpSound.v", "C15/JumpSound2.v", "C15/JumpSound3.v", "C15/PropsPeephole.v"]
-    static = ["C15/Peephole.v", "C15/PeepholeSound.v", "C15/JumpOpt.v", "C15/JumpSem.v", "C15/JumpSound.v",
-              "C15/JumpSound2.v", "C15/JumpSound3.v", "C15/Bytes.v"]
-    if gen_err is None:
-        # static files (no dependence on generated code) are compiled by setup; rebuilt here only when stale
-        bs = ctx.coq_build(static, force=False)
-        b = ctx.coq_build([f for f in files if f not in static]) if bs["ok"] else bs
+    b = _build(ctx) if gen_err is None else {"ok": False}
     model_ok = gen_err is None and (COQ / "C15" / "OptTree.vo").exists() and \
         (b["ok"] or not any(x in b.get("file", "") for x in ("GenUtils", "Optimizer.v", "OptTree.v")))
     T["coq_build"] = round(time.time() - t0, 1); t0 = time.time()
@@ -517,8 +576,10 @@ def run(ctx):
     gf, gcalls = glue_corpus(ctx)
     found += gf
     T["glue"] = round(time.time() - t0, 1); t0 = time.time()
+    nsem = semantics_tie(ctx)
+    T["semantics_tie"] = round(time.time() - t0, 1); t0 = time.time()
     # ---- tie
-    n = gcalls
+    n = gcalls + nsem
     if model_ok:
         n2, f = binop_grid_tie(ctx, differ)
         n += n2
